@@ -25,15 +25,55 @@ Definition err_code (k : errkind) : option string :=
   | EK_NoRedirect => None
   end.
 
+(* a `request` parameter: absent, not a JWT, or a JWT whose claims are known to the driver.
+   ro_iss / ro_client = iss and client_id claims; ro_aud_ok = the provider's issuer is in aud;
+   ro_sig_ok = the signature verifies under the key Storage.GetKeyByIDAndClientID returns
+   for (kid, ro_iss); ro_rt / ro_uri / ro_mode / ro_prompt = claims ("" / None = absent) *)
+Record robj := { ro_iss : string; ro_client : string; ro_aud_ok : bool; ro_sig_ok : bool;
+                 ro_rt : string; ro_uri : string; ro_mode : string; ro_prompt : option prompt }.
+Inductive reqparam := RP_None | RP_Garbage | RP_Signed (o : robj).
+
 (* an authorization request, abstracted to what decides the answer *)
 Record areq := {
   q_client : string; q_uri : string; q_rt : string; q_mode : string;
   q_malformed : bool;      (* max_age=x : the form decoder fails *)
-  q_reqobj : bool;         (* request=<not a JWT> *)
+  q_reqobj : reqparam;     (* the `request` parameter *)
   q_prompt : prompt;
   q_noscope : bool;
   q_hint_bad : bool;       (* id_token_hint present and not verifiable *)
   q_fault : afault }.
+
+Definition has_ro (q : areq) : bool := match q_reqobj q with RP_None => false | _ => true end.
+
+(* every redirect_uri the request mentions: the plain parameter and the one inside a request object *)
+Definition candidates (q : areq) : list string :=
+  q_uri q :: match q_reqobj q with RP_Signed o => [ro_uri o] | _ => [] end.
+
+(* CopyRequestObjectToAuthRequest: present claims overwrite the parameters, RequestParam is cleared
+   (client_id and response_type are never overwritten; scopes stay non-empty / empty as they were) *)
+Definition merge_ro (q : areq) (o : robj) : areq :=
+  {| q_client := q_client q;
+     q_uri := if String.eqb (ro_uri o) "" then q_uri q else ro_uri o;
+     q_rt := q_rt q;
+     q_mode := if String.eqb (ro_mode o) "" then q_mode q else ro_mode o;
+     q_malformed := q_malformed q; q_reqobj := RP_None;
+     q_prompt := match ro_prompt o with Some p => p | None => q_prompt q end;
+     q_noscope := q_noscope q; q_hint_bad := q_hint_bad q; q_fault := q_fault q |}.
+
+(* ParseRequestObject: inl garbage? = error (true: ParseToken failed, a plain error),
+   inr q' = verified and merged *)
+Definition parse_ro (q : areq) : bool + areq :=
+  match q_reqobj q with
+  | RP_None => inr q
+  | RP_Garbage => inl true
+  | RP_Signed o =>
+      if negb (String.eqb (ro_client o) "") && negb (String.eqb (ro_client o) (q_client q)) then inl false
+      else if negb (String.eqb (ro_rt o) "") && negb (String.eqb (ro_rt o) (q_rt q)) then inl false
+      else if negb (String.eqb (ro_iss o) (ro_client o)) then inl false
+      else if negb (ro_aud_ok o) then inl false
+      else if negb (ro_sig_ok o) then inl false
+      else inr (merge_ro q o)
+  end.
 
 Inductive op :=
 | Authorize (r : router) (q : areq)
@@ -134,12 +174,10 @@ Section Handlers.
   Definition prompt_none (p : prompt) := match p with P_None => true | _ => false end.
   Definition fault_create (f : afault) : option errkind := match f with AF_Create k => Some k | _ => None end.
 
-  (* op.Authorize *)
-  Definition authorize_provider (st : list sreq) (q : areq) : list sreq * out :=
+  (* op.Authorize after the request-object stage *)
+  Definition provider_core (st : list sreq) (q : areq) : list sreq * out :=
     let page := (st, OPage 400 "") in
-    if q_malformed q then page
-    else if q_reqobj q && reqobj_supported then page
-    else if String.eqb (q_client q) "" then page
+    if String.eqb (q_client q) "" then page
     else if String.eqb (q_uri q) "" then page
     else match lookup_client (q_fault q) (q_client q) with
     | inl _ => page     (* whatever the storage's error is: ErrInvalidRequestRedirectURI, not redirected *)
@@ -152,7 +190,7 @@ Section Handlers.
         else if String.eqb (q_rt q) "" then er "invalid_request"
         else if negb (string_in (q_rt q) (c_rtypes c)) then er "unauthorized_client"
         else if q_hint_bad q then er "login_required"
-        else if q_reqobj q then er "request_not_supported"
+        else if has_ro q then er "request_not_supported"
         else match fault_create (q_fault q) with
         | Some k => (st, auth_request_error_k (q_uri q) (q_rt q) (q_mode q) k)
         | None =>
@@ -163,13 +201,21 @@ Section Handlers.
       end
     end.
 
-  (* webServer.authorizeHandler / authorize, LegacyServer.VerifyAuthRequest / Authorize *)
-  Definition authorize_legacy (st : list sreq) (q : areq) : list sreq * out :=
+  (* op.Authorize: the request object is verified and merged BEFORE anything is validated;
+     when request objects are unsupported the parameter stays and is refused after validation *)
+  Definition authorize_provider (st : list sreq) (q : areq) : list sreq * out :=
+    if q_malformed q then (st, OPage 400 "")
+    else if has_ro q && reqobj_supported then
+      match parse_ro q with
+      | inl _ => (st, OPage 400 "")
+      | inr q' => provider_core st q'
+      end
+    else provider_core st q.
+
+  (* webServer.authorize + LegacyServer.Authorize once VerifyAuthRequest dealt with the request object *)
+  Definition legacy_core (st : list sreq) (q : areq) : list sreq * out :=
     let bad code := (st, OPage 400 code) in
-    if q_malformed q then bad "invalid_request"
-    else if q_reqobj q && negb reqobj_supported then bad "request_not_supported"
-    else if q_reqobj q then (st, OPage 500 "server_error")
-    else if String.eqb (q_client q) "" then bad "invalid_request"
+    if String.eqb (q_client q) "" then bad "invalid_request"
     else match lookup_client (q_fault q) (q_client q) with
     | inl k => (st, legacy_page k)
     | inr c =>
@@ -192,6 +238,18 @@ Section Handlers.
           end
       end
     end.
+
+  (* webServer.authorizeHandler, LegacyServer.VerifyAuthRequest: request object first, as coded *)
+  Definition authorize_legacy (st : list sreq) (q : areq) : list sreq * out :=
+    if q_malformed q then (st, OPage 400 "invalid_request")
+    else if has_ro q then
+      if negb reqobj_supported then (st, OPage 400 "request_not_supported")
+      else match parse_ro q with
+           | inl true => (st, OPage 500 "server_error")
+           | inl false => (st, OPage 400 "invalid_request")
+           | inr q' => legacy_core st q'
+           end
+    else legacy_core st q.
 
   Definition authorize (r : router) :=
     match r with Provider => authorize_provider | Legacy => authorize_legacy end.
